@@ -153,7 +153,7 @@ func child(name, outPath string) {
 	caseLog, _ := os.Create(os.Getenv("C04_CASELOG"))
 	defer caseLog.Close()
 	env := univ.Bind(registry.Probes[name]())
-	srv := drive.NewServer(env)
+	srv := drive.NewServerWithInterceptor(env)
 	seed := ev.Seed()
 	nOps := ev.Pick(12, 150)
 	wl := fmt.Sprint(env.Probe.Options["worker_limit"])
@@ -226,6 +226,17 @@ func child(name, outPath string) {
 					if len(cr.Samples) < 1 && f == univ.FaultPanic {
 						cr.Samples = append(cr.Samples, map[string]any{"probe": name, "query": op.Query, "fault_point": pt, "fault": "panic",
 							"expected_errors": o.Want.Errors, "data": string(o.Got.Payloads[0].Raw)})
+					}
+				}
+				// the same single fault raised by the field interceptor wrapping that resolver
+				if ev.Tier() == "thorough" || univ.H("ic", pt)%2 == 0 {
+					pi := p
+					pi.FaultInInterceptor = true
+					cidI := diffrun.Case{Probe: name, OpSeed: opSeed, Kind: string(kind), Plan: pi, Query: op.Query, OpName: op.OpName, Vars: op.Vars,
+						Extra: map[string]any{"fault_point": pt, "fault": faultName(f), "raised_by": "field interceptor"}}
+					if oi := runOne(cidI, doc, vars, &pi, 0); oi.Mismatch == "" && oi.Want != nil {
+						count("interceptor_fault_"+faultName(f), 1)
+						cr.Distinct = append(cr.Distinct, fmt.Sprintf("%s|%d|ic|%s|%d", name, opSeed, pt, f))
 					}
 				}
 			}
